@@ -231,3 +231,12 @@ Theorem ignore_error_corner : forall root query ext fsigs fcall pcall i name p,
   fsigs name = Some (mkSig [] None) -> fcall name p [] = CfErr ->
   eval_nocache root query ext fsigs fcall pcall (VD i None []) p = if p_ignore (v_pub i) then Ok VNil else Err.
 Proof. exact ignore_error_corner. Qed.
+
+(* With the xpath_dynamic of a template reference validated twice (validateTemplate before the
+   F28 repair) the children of an array below it are doubled and the value is no longer the
+   documented one. *)
+Theorem double_validation_old_refuted :
+  exists top, validated ds_f28 = Some top /\ wf_b true top = true /\
+    Some (run_nocache doc_abab top []) = run_spec doc_abab ds_f28 [] /\
+    Some (run_nocache doc_abab (legacy_double_validation top) []) <> run_spec doc_abab ds_f28 [].
+Proof. exact f28_double_validation_differs. Qed.
